@@ -21,7 +21,7 @@ BINARY = ["add", "sub", "mul", "div", "maximum", "minimum"] * 3 + ["arctan2", "l
 BINARY_EXACT = ["add", "sub", "mul"]
 REDUCE = ["sum", "mean", "prod", "max", "min", "var", "std"]
 REDUCE_EXACT = ["sum"]
-VIEWS = ["getitem", "reshape", "ravel", "squeeze", "expand_dims", "transpose", "swapaxes", "moveaxis", "broadcast_to", "diag"]
+VIEWS = ["getitem", "reshape", "ravel", "squeeze", "expand_dims", "transpose", "swapaxes", "moveaxis", "broadcast_to", "diag"] * 2 + ["atleast_1d", "atleast_2d", "atleast_3d", "repeat", "roll"]
 
 
 class G:
@@ -556,8 +556,18 @@ class Gen:
                 shp = list(shp)
                 shp[self.r.randrange(len(shp))] = -1
             return {"shape": list(shp), "splat": self.coin(0.5)}
+        if kind in ("atleast_1d", "atleast_2d", "atleast_3d"):
+            return {} if nd < int(kind[8]) else None  # (otherwise the operand itself is returned)
         if kind in ("ravel", "flatten"):
             return {}
+        if kind == "repeat":
+            if nd == 0 or self.coin(0.3):
+                return {"repeats": self.r.randint(1, 2), "axis": None}
+            return {"repeats": self.r.randint(1, 2), "axis": self.r.randint(-nd, nd - 1)}
+        if kind == "roll":
+            if nd == 0 or self.coin(0.3):
+                return {"shift": self.r.randint(-3, 3), "axis": None}
+            return {"shift": self.r.randint(-3, 3), "axis": self.r.randint(-nd, nd - 1)}
         if kind == "squeeze":
             ones = [i for i, d in enumerate(v.shape) if d == 1]
             if not ones:
